@@ -34,6 +34,7 @@ def run(ctx):
     plots.panel_rule(ctx, "C17.R5")
     plots.c17_extra_rules(ctx, "C17.R8", "C17.R9", "C17.R10")
     plots.c17_mesh_rule(ctx, "C17.R11")
+    plots.c17_scatter_norm_rule(ctx, "C17.R12")
 
     def sources(fi):
         s = set()
